@@ -314,6 +314,11 @@ def gen_case(rng, tier, i=None):
                 vm['globals'] = [['gv', expr]]
                 vm['views'][k]['filter'] = '(%s) or gv' % vm['views'][k]['filter']
                 case['var_scope'] = 'global'
+                for v_ in vm['views']:
+                    if v_ is not vm['views'][k] and rng.random() < 0.6:
+                        # other views have (working) variables of their own and never mention gv
+                        v_['vars'] = [['half', 'total / 2']]
+                        v_['filter'] = '(%s) and (half >= 0 or half < 0)' % v_['filter']
         merchants = []
         for j in range(rng.randint(2, 4)):
             cat, sub = rng.choice(rf.CATS)
